@@ -1,5 +1,5 @@
 #!/usr/bin/env python3
-"""refactor_tool.py import <property> <agent worktree>
+"""refactor_tool.py import <property> <agent worktree> [tag]
       - copies <worktree>/REFACTOR/{k.diff,README.md} into refactors/<property>-<k>/, confirms in a fresh scratch
         worktree of /repo that the patch applies, builds without new warnings and passes the whole test suite, then
         runs ALL checks against a scratch copy with the patch applied.  A behaviour-preserving rewrite has to leave every
@@ -56,11 +56,12 @@ def main():
     os.makedirs(RF, exist_ok=True)
     if cmd == 'import':
         pid, wt = sys.argv[2:4]
+        tag = sys.argv[4] if len(sys.argv) > 4 else ''
         src = os.path.join(wt, 'REFACTOR')
         for f in sorted(os.listdir(src)):
             if not f.endswith('.diff'):
                 continue
-            rid = '%s-%s' % (pid, f[:-5])
+            rid = '%s-%s%s' % (pid, tag, f[:-5])
             d = os.path.join(RF, rid)
             os.makedirs(d, exist_ok=True)
             shutil.copy(os.path.join(src, f), os.path.join(d, 'patch.diff'))
